@@ -7,6 +7,8 @@ use ivp::prelude::*;
 use ivp::solout::SolOut;
 use std::cell::{Cell, RefCell};
 
+thread_local! { static NCALLS: Cell<usize> = Cell::new(0); }
+
 #[derive(Clone, Copy, PartialEq)]
 enum Rhs {
     /// returns 1.0 on the j-th call (1-based), 0.0 otherwise
@@ -15,6 +17,8 @@ enum Rhs {
     Smooth,
     /// scripted accept/reject: trial pattern decides whether stage values agree ('A') or are wild ('R')
     Script,
+    /// y' = -2000 (y - cos t): drives the explicit methods into their stiffness detection
+    Stiff,
 }
 
 struct F {
@@ -39,9 +43,12 @@ impl F {
 impl IVP for F {
     fn ode(&self, x: f64, y: &[f64], d: &mut [f64]) {
         let n = { let mut c = self.calls.borrow_mut(); c.push((x, y[0])); c.len() };
+        NCALLS.with(|c| c.set(n));
+        if n > 5000000 { println!("{{\"ok\":false,\"hang\":true,\"calls\":{}}}", n); std::process::exit(0); }
         match self.rhs {
             Rhs::Impulse(j) => d[0] = if n == j { 1.0 } else { 0.0 },
             Rhs::Smooth => d[0] = x.cos() + 0.5 * y[0],
+            Rhs::Stiff => d[0] = -2000.0 * (y[0] - x.cos()),
             Rhs::Script => {
                 // call-indexed: the value depends only on the position inside the current trial
                 if n <= self.pre { d[0] = 1.0; return; }
@@ -77,12 +84,16 @@ struct Rec {
     flags: Vec<u8>,                        // per callback: b'C' b'I' b'M' b'X'
     modified_to: f64,
     xout_at: f64,
+    calls_at_cb: Vec<usize>,
+    had_interp: Vec<bool>,
 }
 
 impl SolOut for Rec {
     fn solout(&mut self, xold: f64, x: &mut f64, y: &mut [f64], it: Option<&StepInterpolant<'_>>) -> ControlFlag {
         let k = self.cbs.len();
         self.cbs.push((xold, *x, y[0]));
+        self.calls_at_cb.push(NCALLS.with(|c| c.get()));
+        self.had_interp.push(it.is_some());
         if let Some(i) = it {
             let mut v = vec![];
             let mut yi = vec![0.0; y.len()];
@@ -132,13 +143,13 @@ fn main() {
             let base = Run { method: method.clone(), x0: 0.0, xend: 1.0e9 * h.signum(), y0: 0.0, h0: Some(h), max_step: None, max_steps: 10, rtol: 0.0, atol: 1.0e300, dense: true };
             // number of calls up to and including the first accepted step
             let f = F::new(Rhs::Impulse(0));
-            let mut so = Rec { cbs: vec![], dense: vec![], bounds: vec![], thetas: thetas.clone(), stop_after: 2, flags: vec![], modified_to: 0.0, xout_at: 0.0 };
+            let mut so = Rec { cbs: vec![], dense: vec![], bounds: vec![], thetas: thetas.clone(), stop_after: 2, flags: vec![], modified_to: 0.0, xout_at: 0.0, calls_at_cb: vec![], had_interp: vec![] };
             let _ = solve(&base, &f, &mut so);
             let s = f.calls.borrow().len();
             let mut out = vec![];
             for j in 1..=s {
                 let f = F::new(Rhs::Impulse(j));
-                let mut so = Rec { cbs: vec![], dense: vec![], bounds: vec![], thetas: thetas.clone(), stop_after: 2, flags: vec![], modified_to: 0.0, xout_at: 0.0 };
+                let mut so = Rec { cbs: vec![], dense: vec![], bounds: vec![], thetas: thetas.clone(), stop_after: 2, flags: vec![], modified_to: 0.0, xout_at: 0.0, calls_at_cb: vec![], had_interp: vec![] };
                 let _ = solve(&base, &f, &mut so);
                 let calls = f.calls.borrow();
                 let ts: Vec<f64> = calls.iter().map(|c| c.0).collect();
@@ -156,7 +167,7 @@ fn main() {
             let dense = a.get(4).map(|s| s != "nodense").unwrap_or(true);
             let base = Run { method: method.clone(), x0: 0.25, xend: 0.25 + 1.0e3 * h.signum(), y0: 0.75, h0: Some(h), max_step: Some(h.abs()), max_steps: 10, rtol: 0.0, atol: 1.0e300, dense };
             let f = F::new(Rhs::Smooth);
-            let mut so = Rec { cbs: vec![], dense: vec![], bounds: vec![], thetas: thetas.clone(), stop_after: 3, flags: vec![], modified_to: 0.0, xout_at: 0.0 };
+            let mut so = Rec { cbs: vec![], dense: vec![], bounds: vec![], thetas: thetas.clone(), stop_after: 3, flags: vec![], modified_to: 0.0, xout_at: 0.0, calls_at_cb: vec![], had_interp: vec![] };
             let _ = solve(&base, &f, &mut so);
             let calls = f.calls.borrow();
             let ts: Vec<f64> = calls.iter().map(|c| c.0).collect();
@@ -173,7 +184,7 @@ fn main() {
             f.script = a[8].as_bytes().to_vec();
             f.stages = a[10].parse().unwrap();
             f.pre = a[11].parse().unwrap();
-            let mut so = Rec { cbs: vec![], dense: vec![], bounds: vec![], thetas: vec![0.0, 1.0], stop_after: 0, flags: a[9].as_bytes().to_vec(), modified_to: 0.25, xout_at: 0.0 };
+            let mut so = Rec { cbs: vec![], dense: vec![], bounds: vec![], thetas: vec![0.0, 1.0], stop_after: 0, flags: a[9].as_bytes().to_vec(), modified_to: 0.25, xout_at: 0.0, calls_at_cb: vec![], had_interp: vec![] };
             let budget: usize = 200000;
             let _ = budget;
             let r = solve(&run, &f, &mut so);
@@ -183,8 +194,8 @@ fn main() {
             let cb: Vec<String> = so.cbs.iter().map(|c| format!("[{},{},{}]", js(c.0), js(c.1), js(c.2))).collect();
             let bd: Vec<String> = so.bounds.iter().map(|c| format!("[{},{}]", js(c.0), js(c.1))).collect();
             match r {
-                Ok(res) => println!("{{\"ok\":true,\"status\":\"{:?}\",\"nfev\":{},\"njev\":{},\"nstep\":{},\"naccpt\":{},\"nrejct\":{},\"h\":{},\"ode_calls\":{},\"jac_calls\":{},\"t\":{},\"y\":{},\"callbacks\":[{}],\"bounds\":[{}]}}",
-                    res.status, res.evals.ode, res.evals.jac, res.steps.total, res.steps.accepted, res.steps.rejected, js(res.h), calls.len(), f.jac_calls.get(), jl(&ts), jl(&ys), cb.join(","), bd.join(",")),
+                Ok(res) => println!("{{\"ok\":true,\"status\":\"{:?}\",\"nfev\":{},\"njev\":{},\"nstep\":{},\"naccpt\":{},\"nrejct\":{},\"h\":{},\"ode_calls\":{},\"jac_calls\":{},\"t\":{},\"y\":{},\"callbacks\":[{}],\"bounds\":[{}],\"calls_at_cb\":{:?},\"had_interp\":{:?}}}",
+                    res.status, res.evals.ode, res.evals.jac, res.steps.total, res.steps.accepted, res.steps.rejected, js(res.h), calls.len(), f.jac_calls.get(), jl(&ts), jl(&ys), cb.join(","), bd.join(","), so.calls_at_cb, so.had_interp),
                 Err(e) => println!("{{\"ok\":false,\"error\":\"{:?}\"}}", e),
             }
         }
@@ -197,7 +208,7 @@ fn main() {
             for dense in [true, false] {
                 let base = Run { method: method.clone(), x0: 0.25, xend: 0.25 + 1.0e3 * h.signum(), y0: 0.75, h0: Some(h), max_step: Some(h.abs()), max_steps: 10, rtol: 0.0, atol: 1.0e300, dense };
                 let f = F::new(Rhs::Smooth);
-                let mut so = Rec { cbs: vec![], dense: vec![], bounds: vec![], thetas: thetas.clone(), stop_after: 5, flags: if dense { vec![] } else { vec![b'X'] }, modified_to: 0.0, xout_at: 0.25 + 2.5 * h };
+                let mut so = Rec { cbs: vec![], dense: vec![], bounds: vec![], thetas: thetas.clone(), stop_after: 5, flags: if dense { vec![] } else { vec![b'X'] }, modified_to: 0.0, xout_at: 0.25 + 2.5 * h, calls_at_cb: vec![], had_interp: vec![] };
                 // record which callbacks came with an interpolant
                 let _ = solve(&base, &f, &mut so);
                 let cb: Vec<String> = so.cbs.iter().map(|c| format!("[{},{},{}]", js(c.0), js(c.1), js(c.2))).collect();
@@ -207,6 +218,16 @@ fn main() {
             }
             println!("{{\"method\":\"{}\",\"runs\":[{}]}}", method, outs.join(","));
         }
-        _ => { eprintln!("usage: probe tableau|fsal|ondemand|script ..."); std::process::exit(2); }
+        // probe stiff METHOD : stiff problem until the solver gives up; counters vs reported intervals
+        "stiff" => {
+            let run = Run { method: a[2].clone(), x0: 0.0, xend: 20.0, y0: 0.0, h0: None, max_step: None, max_steps: 10_000_000, rtol: 1e-4, atol: 1e-6, dense: true };
+            let f = F::new(Rhs::Stiff);
+            let mut so = Rec { cbs: vec![], dense: vec![], bounds: vec![], thetas: vec![], stop_after: 0, flags: vec![], modified_to: 0.0, xout_at: 0.0, calls_at_cb: vec![], had_interp: vec![] };
+            match solve(&run, &f, &mut so) {
+                Ok(res) => println!("{{\"ok\":true,\"status\":\"{:?}\",\"nfev\":{},\"ode_calls\":{},\"naccpt\":{},\"intervals\":{},\"nstep\":{}}}", res.status, res.evals.ode, f.calls.borrow().len(), res.steps.accepted, so.cbs.len() - 1, res.steps.total),
+                Err(e) => println!("{{\"ok\":false,\"error\":\"{:?}\"}}", e),
+            }
+        }
+        _ => { eprintln!("usage: probe tableau|fsal|ondemand|script|stiff ..."); std::process::exit(2); }
     }
 }
